@@ -238,6 +238,34 @@ def r1(ctx: Ctx, roles) -> None:
                 seen_roles[role] = bound
                 ctx.ob("C09.R1", fn, f"{role} bound", isinstance(bound, (int, float)) and float(bound) == DOCUMENTED[role], f"folds to {bound!r}, documented {DOCUMENTED[role]}s [{how}]", node=aw)
     ctx.count("C09.R1", n, 40, "awaits in connection.py/client.py")
+    # how a wait on a *future that callbacks complete* is bounded matters: the package's timers (`handle_timeout`) only
+    # act on a future that is still pending, so a result or a specific error that arrived in the same loop turn as the
+    # deadline wins.  `asyncio.timeout()` / `wait_for()` around such an await cancel the waiting task regardless and
+    # replace that outcome by a timeout ("first cause wins" / "completes with its result").
+    n_fw = 0
+    for fn in b.funcs:
+        if fn.module.name != "connection":
+            continue
+        futs = {t.id for x in own_nodes(fn.node) if isinstance(x, (ast.Assign, ast.AnnAssign)) and isinstance(x.value, ast.Call) and isinstance(x.value.func, ast.Attribute) and x.value.func.attr == "create_future" for t in (x.targets if isinstance(x, ast.Assign) else [x.target]) if isinstance(t, ast.Name)}
+        parents = {}
+        for p_ in ast.walk(fn.node):
+            for ch in ast.iter_child_nodes(p_):
+                parents[ch] = p_
+        for aw in [x for x in own_nodes(fn.node) if isinstance(x, ast.Await)]:
+            v = aw.value
+            is_cb_future = (isinstance(v, ast.Name) and v.id in futs) or (isinstance(v, ast.Attribute) and v.attr.endswith("ready_future"))
+            wrapped = isinstance(v, ast.Call) and norm(v.func).split(".")[-1] in ("wait_for",) and v.args and ((isinstance(v.args[0], ast.Name) and v.args[0].id in futs) or (isinstance(v.args[0], ast.Attribute) and v.args[0].attr.endswith("ready_future")))
+            if not (is_cb_future or wrapped):
+                continue
+            n_fw += 1
+            cur = aw
+            cancelling = wrapped
+            while cur in parents and not cancelling:
+                cur = parents[cur]
+                if isinstance(cur, ast.AsyncWith) and any(isinstance(it.context_expr, ast.Call) and norm(it.context_expr.func).split(".")[-1] in ("asyncio_timeout", "timeout", "timeout_at") for it in cur.items):
+                    cancelling = True
+            ctx.ob("C09.R1", fn, f"await {norm(v)[:50]}: bounded by a timer that only acts on a pending future", not cancelling, "bounded by asyncio.timeout() / wait_for(): the deadline cancels the task even when the future was completed in the same loop turn - the result or the specific error is replaced by a timeout", node=aw)
+    ctx.count("C09.R1.futures", n_fw, 2, "awaits of callback-completed futures")
     # timeouts handed to the request machinery at the hello/login and disconnect sites
     res = resolver(ctx)
     complex_fn = ctx.repo.func("connection", "APIConnection.send_messages_await_response_complex")
